@@ -144,6 +144,12 @@ pub struct Ctx {
     pub receiver_alive: bool,
     /// what the CLI's dispatch returned (error chain rendered as text)
     pub cli_result: Option<Result<(), String>>,
+    /// simulated time of the invocation: one scheduler step = one millisecond (set by the scheduler)
+    pub clock_steps: u64,
+    /// tasks inside a timed wait (channel recv_timeout/send_timeout) and their deadlines
+    pub timed: BTreeMap<u32, u64>,
+    /// timed waiters the scheduler has told to time out (nothing else was runnable: the clock jumps)
+    pub timed_fire: std::collections::BTreeSet<u32>,
 }
 
 thread_local! {
